@@ -22,7 +22,9 @@
     the model driver.  Here they are computed by the model of the parser: [Peg.run] on the
     grammar [G_xml] regenerated from parser/src/lib.rs and nom/src/lib.rs, read into the typed
     parse model by Model/ParseActions.v ([parse_element], [parse_attribute], [parse_pi], ...).
-    [facts_of_name] / [facts_of_data] follow [digest] line by line.
+    [facts_of_name] / [facts_of_data] follow [digest] line by line; the two are compared on every run of
+    bin/check C13 / C15 (extraction roots coq/extraction/model_roots/domfacts.txt, driver
+    ocaml/domains/domfacts/domfacts.ml, checks/dom13.py facts_tie: hand-picked, generator and random strings).
 
     Computable definitions only; the theorems are in Proofs/DomFacts*.v. *)
 From Coq Require Import List NArith Bool.
